@@ -128,6 +128,9 @@ func (td *ComplexVectorTypeDef) Deserialize(dr *codec.DecodingReader) (View, err
 			offsets[i] = offset
 			prevOffset = offset
 		}
+		if uint64(offsets[0]) != td.VectorLength*OffsetByteLength {
+			return nil, fmt.Errorf("first offset %d does not match the offsets size %d", offsets[0], td.VectorLength*OffsetByteLength)
+		}
 		elements := make([]View, td.VectorLength, td.VectorLength)
 		lastIndex := uint32(len(elements) - 1)
 		for i := uint32(0); i < lastIndex; i++ {
